@@ -41,6 +41,10 @@ pub mod nix {
                 #[verifier::external_body] pub fn empty() -> (r: SigSet) ensures r@ == Set::<int>::empty(), { unimplemented!() }
                 #[verifier::external_body] pub fn add(&mut self, s: Signal) ensures final(self)@ == old(self)@.insert(s.num as int), { unimplemented!() }
                 #[verifier::external_body] pub fn remove(&mut self, s: Signal) ensures final(self)@ == old(self)@.remove(s.num as int), { unimplemented!() }
+                // (not used by the unchanged tree: parts of nix's SigSet API an edit may plausibly start to use)
+                #[verifier::external_body] pub fn contains(&self, s: Signal) -> (r: bool) ensures r == self@.contains(s.num as int), { unimplemented!() }
+                #[verifier::external_body] pub fn clear(&mut self) ensures final(self)@ == Set::<int>::empty(), { unimplemented!() }
+                #[verifier::external_body] pub fn extend(&mut self, other: &SigSet) ensures final(self)@ == old(self)@.union(other@), { unimplemented!() }
                 #[verifier::external_body] pub fn thread_block(&self) -> (r: Result<(), Errno>) requires may_block(self@), ensures r is Ok ==> w_thread_blocked(self@), { unimplemented!() }
                 #[verifier::external_body] pub fn thread_unblock(&self) -> (r: Result<(), Errno>) requires may_unblock(self@), ensures r is Ok ==> w_thread_unblocked(self@), w_thread_unblock_called(self@), { unimplemented!() }
             }
